@@ -10,7 +10,8 @@ code -> spec : after every call the harness takes an observer-neutral fingerprin
                class, all .training flags, requires_grad vector, outputs on a fixed batch, every cost, summary - everything
                that executes model code runs on a faithful deep copy) and, for every non-observer call, the fingerprint of a
                second object on which the same sequence WITHOUT the observer calls is run.  TLC (ObserversTrace) validates
-               every step: observers change nothing, the setter changes the costs only, full run = erased run, cost and
+               every step: observers change nothing (incl. deep-copyability and the attribute key sets of all modules), the setter changes
+               the costs only, full run = erased run, cost and
                export are functions of (core, specification) - which covers "switch the specification and switch it back"
                and the models constructed directly with the other specification - with the same Observers operators.
                Seeded random sequences (length 5..14) on further model variants go through the same trace spec.
@@ -65,14 +66,24 @@ def _random_scenario(kind: str, variant: str, rng: random.Random, length: int) -
     return {"kind": kind, "variant": variant, "init": init, "wseed": rng.randint(0, 999), "acts": acts, "src": "random"}
 
 
-def _corruption_sanity(traces: List[Dict[str, Any]]) -> None:
-    """non-vacuity of the trace specification: corrupted copies of a recorded trace must be rejected with the right clause"""
+def _corruption_sanity(traces: List[Dict[str, Any]], strict: bool = True) -> None:
+    """non-vacuity of the trace specification: corrupted copies of a recorded (accepted) trace must be rejected with the
+    right clause.  The corruption is injected at a summary() call before which the model was still deep-copyable."""
     import copy
-    base = next((t for t in traces if any(e["act"]["a"] in ("summary", "cost", "getcost") for e in t["ev"])
-                 and any(e["ref"]["has"] for e in t["ev"])), None)
+
+    def spot(t):
+        prev = t["init"]
+        for i, e in enumerate(t["ev"]):
+            if e["act"]["a"] == "summary" and prev["copy_ok"] and e["obs"]["copy_ok"] and any(x["ref"]["has"] for x in t["ev"]):
+                return i
+            prev = e["obs"]
+        return None
+    base = next((t for t in traces if spot(t) is not None), None)
     if base is None:
-        raise MachineryError("C18: no trace with an observer call and a non-observer call")
-    k = next(i for i, e in enumerate(base["ev"]) if e["act"]["a"] in ("summary", "cost", "getcost"))
+        if strict:
+            raise MachineryError("C18: no trace with a summary() call on a copyable model and a non-observer call")
+        return
+    k = spot(base)
     j = next(i for i, e in enumerate(base["ev"]) if e["ref"]["has"])
     muts = []
 
@@ -84,6 +95,13 @@ def _corruption_sanity(traces: List[Dict[str, Any]]) -> None:
     t = copy.deepcopy(base); t["ev"][j]["ref"]["obs"] = dict(t["ev"][j]["ref"]["obs"], out=t["ev"][j]["ref"]["obs"]["out"] + 1000)
     muts.append(("C18.erasure", t))
     t = copy.deepcopy(base); t["ev"][k]["err"] = "RuntimeError: injected"; muts.append(("C18.raises", t))
+    t = copy.deepcopy(base); bump(t, k, "dkeys")
+    t["ev"][k]["dk"] = {"new": [{"m": "Conv2d", "k": "injected", "nas": False}], "nnew": 1, "del": [], "ndel": 0}
+    muts.append(("C18.usable", t))
+    t = copy.deepcopy(base)
+    for e in t["ev"][k:]:
+        e["obs"]["copy_ok"] = False
+    muts.append(("C18.usable", t))
     verdicts, _ = tlc.validate_traces("ObserversTrace", "ObserversTrace", [m for _, m in muts], workers=2)
     for (want, _), v in zip(muts, verdicts):
         if not v.startswith(want):
@@ -110,9 +128,11 @@ def run(tier: str, seed: int, replay=None) -> int:
         "observer_calls_that_advanced_rng)",
         "outputs are compared to float round-off: |a-b| <= 1e-6*(1+max|a|) in float32 (bit-identical in every run so far)",
         "everything that executes model code for the fingerprint (probing forward passes, cost, summary) runs on a deep copy "
-        "in which non-leaf tensors held as buffers/attributes are replaced by their detached selves; a stale functorch "
-        "BatchedTensor left in MPSAdd.__dict__ by the vmap'ed cost (copy.deepcopy / pickling of the live model then fails) is "
-        "recorded as an observation (evidence: models_not_deepcopyable_after_cost), not decided by this check",
+        "in which non-leaf tensors held as buffers/attributes are replaced by their detached selves (that is how a grad-enabled "
+        "forward leaves every MPS model; not an effect of observers)",
+        "'usable' = after an observer call (a) a strict copy.deepcopy (only detaching non-leaf tensors) still succeeds if it did "
+        "before and (b) vars() of every module has the same PUBLIC key set (names not starting with '_'; private caches / memos "
+        "are not compared) as before the call",
         "architectural coefficients are made generic (distinct) before the initial forward pass; 'cost specification A/B' = "
         "params/ops (PIT, SuperNet) or params_bit/ops_bit (MPS), D = the dictionary of both",
         "concrete models are a fixed family (1-D TCN with fused BN / strided conv / shared add group, 2-D CNN with stand-alone "
@@ -174,6 +194,9 @@ def run(tier: str, seed: int, replay=None) -> int:
     R.design("ObserversMC", "ObserversMC_sn_pinned_neutral", expect_ok=False, workers=2)
     R.design("ObserversMC", "ObserversMC_pit_pinned_seq", expect_ok=False, workers=2)
     R.design("ObserversMC", "ObserversMC_mps_f16", expect_ok=False, workers=2)
+    # ... and a cost computation that updates the live vars(module) adds attributes (F36 / F37): not neutral, not erasable
+    R.design("ObserversMC", "ObserversMC_mps_costkeys", expect_ok=False, workers=2)
+    R.design("ObserversMC", "ObserversMC_sn_costkeys_seq", expect_ok=False, workers=2)
 
     # 3. code -> spec: random sequences on all variants
     n_rand = 10 if quick else 150
@@ -204,13 +227,22 @@ def run(tier: str, seed: int, replay=None) -> int:
         "random_sequences": len(scen) - n_graph, "calls_executed": calls_n, "observer_calls_executed": obs_calls,
         "erased_runs_compared_at_calls": sum(1 for t in traces for e in t["ev"] if e["ref"]["has"]),
         "observer_calls_that_advanced_rng": sum(1 for t in traces for e in t["ev"] if e["rngadv"] and e["act"]["a"] in OBS),
-        "models_not_deepcopyable_after_cost": sum(1 for t in traces if any(e["obs"]["dirty"] for e in t["ev"])),
+        "observer_calls_after_which_model_not_deepcopyable": sum(
+            1 for t in traces for p, e in zip([t["init"]] + [x["obs"] for x in t["ev"]], t["ev"])
+            if e["act"]["a"] in OBS and p["copy_ok"] and not e["obs"]["copy_ok"]),
+        "observer_calls_that_added_public_attributes": sum(1 for t in traces for e in t["ev"]
+                                                          if e["act"]["a"] in OBS and e["dk"]["nnew"] > 0),
+        "attributes_added_by_observer_calls": sorted({f'{x["m"]}.{x["k"]}' for t in traces for e in t["ev"]
+                                                      if e["act"]["a"] in OBS for x in e["dk"]["new"]})[:40],
         "outputs_equal_only_to_roundoff": sum(1 for t in traces for e in t["ev"]
                                               if e["obs"]["out"] != e["obs"]["outx"] or e["obs"]["oute"] != e["obs"]["outex"]),
     })
-    _corruption_sanity(traces)
-    R.validate("ObserversTrace", "ObserversTrace", traces, scen, nontrivial=nontrivial, key=_key,
-               label="graph walks + random sequences", chunk=300, workers=8)
+    verdicts = R.validate("ObserversTrace", "ObserversTrace", traces, scen, nontrivial=nontrivial, key=_key,
+                          label="graph walks + random sequences", chunk=300, workers=8)
+    # corrupted copies of ACCEPTED traces must be rejected (skipped only if the tree under test has no accepted trace)
+    accepted = [t for t, v in zip(traces, verdicts) if v == "ok" or v.startswith(("known:", "drift:"))]
+    if accepted:
+        _corruption_sanity(accepted, strict=len(accepted) == len(traces))
     R.evaluations = calls_n
     R.exhaustive = True
     return R.finish()
